@@ -75,9 +75,9 @@ theorem frame_cons (pack : Nat → List UInt8) (r : List UInt8) (rs : List (List
     frame pack (r :: rs) = pack r.length ++ (r ++ frame pack rs) := by
   simp [frame]
 
-theorem varChunks_frame (pl : Nat) (hpl : 0 < pl) (pack : Nat → List UInt8) (unpack : List UInt8 → Nat)
-    (hlen : ∀ n, (pack n).length = pl) (hinv : ∀ n, unpack (pack n) = n)
-    (rs : List (List UInt8)) (fuel : Nat) (hf : rs.length < fuel) :
+theorem varChunks_frame (pl : Nat) (hpl : 0 < pl) (B : Nat) (pack : Nat → List UInt8) (unpack : List UInt8 → Nat)
+    (hlen : ∀ n, n < B → (pack n).length = pl) (hinv : ∀ n, n < B → unpack (pack n) = n)
+    (rs : List (List UInt8)) (hr : ∀ r ∈ rs, r.length < B) (fuel : Nat) (hf : rs.length < fuel) :
     varChunks pl unpack (frame pack rs) fuel = rs := by
   induction rs generalizing fuel with
   | nil =>
@@ -88,12 +88,14 @@ theorem varChunks_frame (pl : Nat) (hpl : 0 < pl) (pack : Nat → List UInt8) (u
     cases fuel with
     | zero => simp at hf
     | succ f =>
+      have hb : r.length < B := hr r (by simp)
       have hne : pack r.length ≠ [] := by
-        intro e; have := hlen r.length; rw [e] at this; simp at this; omega
+        intro e; have := hlen r.length hb; rw [e] at this; simp at this; omega
       rw [frame_cons]
       simp only [varChunks]
-      rw [List.take_left' (hlen _), List.drop_left' (hlen _), hinv,
-        List.take_left' rfl, List.drop_left' rfl, ih f (by simp at hf; omega)]
+      rw [List.take_left' (hlen _ hb), List.drop_left' (hlen _ hb), hinv _ hb,
+        List.take_left' rfl, List.drop_left' rfl,
+        ih (fun r' hr' => hr r' (by simp [hr'])) f (by simp at hf; omega)]
       simp [hne]
 
 /-! ### digits and zero padding -/
